@@ -85,8 +85,8 @@ CHECKS = {
    design="DESIGN.md section 2 / C16"),
  "C07": dict(
    technique="fault-injection / totality monitor: enumerated and random perturbations of real programs and literal strings are pushed through the real scan / parse / type-check / compile (and Literal::parse) in isolated worker processes under a parent-side watchdog; panics, aborts, stack overflows, hangs, empty error lists, malformed error locations and prettify failures are observed per stage",
-   text="Exploration with enumerated sub-spaces: every character prefix, every token prefix and every single-token deletion / duplication / adjacent swap of every corpus program (examples, doc snippets, programs quoted in the tests; extracted from the working tree at run time) - completeness is measured by the run; substitution of each token by each token of a 111-token alphabet (all positions of programs <= 400 tokens in the thorough tier, sampled in quick), insertions, two-edit mutants, generated programs with token edits and rule-breaking edits, token soup (pure and skeleton-guided), random bytes / unicode, comment and line-end insertions, nesting towers of 48 shapes up to depth 256, and the same operators on literal strings for the parameter types of corpus programs. ~1.5e7 inputs per quick run.",
-   note="Termination is decided as bounded progress (10 s per input, confirmed alone with 60 s before a hang in scan / parse / check is reported). Time-outs and memory exhaustion (2 GiB address space, capacity overflow) in the compile stage are not judged: a mutant may describe an enormous circuit. Worker front-end thread: 8 MiB stack; towers <= depth 256. Known finding KF-C07-1 keyed on cause.",
+   text="Exploration with enumerated sub-spaces: the slot grid (about 160 000 tiny programs that put every kind of value, type, pattern and const expression - every atom and max / min / + / - over every pair of atoms - into every kind of slot: const definitions, array sizes, type positions, annotations, casts, both operands of all binary operators, assignments, indices, call arguments, branches, match / let / for patterns; enumerated completely in both tiers); every character prefix, every token prefix and every single-token deletion / duplication / adjacent swap of every corpus program (examples, doc snippets, programs quoted in the tests; extracted from the working tree at run time) - completeness is measured by the run; substitution of each token by each token of a 111-token alphabet (all positions of programs <= 400 tokens in the thorough tier, sampled in quick), insertions, two-edit mutants, generated programs with token edits and rule-breaking edits, token soup (pure and skeleton-guided), random bytes / unicode, comment and line-end insertions, nesting towers of 48 shapes up to depth 256, and the same operators on literal strings for the parameter types of corpus programs. ~1.5e7 inputs per quick run.",
+   note="Termination is decided as bounded progress (10 s per input, confirmed alone with 60 s before a hang in scan / parse / check is reported). Time-outs and memory exhaustion (2 GiB address space, capacity overflow) in the compile stage are not judged: a mutant may describe an enormous circuit. Worker front-end thread: 8 MiB stack; towers <= depth 256. Known findings KF-C07-1 and KF-C07-3 keyed on cause (read off the type-checked program by the worker), KF-C07-2 on the exact tower inputs. Programs naming constants of other parties are compiled a second time with synthesized constants.",
    design="DESIGN.md section 2 / C07"),
 }
 NOT_APPLICABLE = {}
